@@ -139,6 +139,9 @@ pub struct FrameChecker {
     pub datagrams: usize,
     step_no: usize,
     dropped: bool,
+    /// C07 runs: timing-of-writes (F4) deviations are not this property's business; count them and keep the model going
+    pub tolerate_f4: bool,
+    pub f4_tolerated: u64,
 }
 
 fn show(b: &[u8]) -> String {
@@ -159,6 +162,17 @@ impl FrameChecker {
             datagrams: 0,
             step_no: 0,
             dropped: false,
+            tolerate_f4: false,
+            f4_tolerated: 0,
+        }
+    }
+
+    fn f4(&mut self, class: &'static str, detail: String) -> Result<(), FrameViolation> {
+        if self.tolerate_f4 {
+            self.f4_tolerated += 1;
+            Ok(())
+        } else {
+            Err(self.viol("F4", class, detail))
         }
     }
 
@@ -317,7 +331,9 @@ impl FrameChecker {
                                 // only if it would still have fitted the capacity
                                 let rest: usize = self.pending.iter().map(|l| l.bytes.len()).sum();
                                 if bytes.len() + rest <= self.cap {
-                                    return Err(self.viol("F4", "partial-flush", format!("buffer write carried {} of {} pending lines although all fitted in one datagram", k, all)));
+                                    self.f4("partial-flush", format!("buffer write carried {} of {} pending lines although all fitted in one datagram", k, all))?;
+                                    // tolerated: the rest may follow in further writes of the same call
+                                    continue;
                                 }
                             }
                             let _ = cur_metric;
@@ -351,7 +367,11 @@ impl FrameChecker {
             Op::Drop => self.step_flush(s, true),
             Op::Query => {
                 if let Some(a) = s.attempts.first() {
-                    return Err(self.viol("F4", "write-on-query", format!("a read-only call (stats) wrote {:?} to the socket", a.bytes.as_ref().map(|b| show(b)))));
+                    let d = format!("a read-only call (stats) wrote {:?} to the socket", a.bytes.as_ref().map(|b| show(b)));
+                    self.f4("write-on-query", d)?;
+                    // tolerated: judge the writes as a flush would be judged
+                    let s2 = Step { op: Op::Flush, attempts: s.attempts.clone(), res: Res::OkUnit };
+                    return self.step_flush(&s2, false).map(|_| Outcome::Other).or(Ok(Outcome::Other));
                 }
                 Ok(Outcome::FlushEmpty)
             }
@@ -485,11 +505,7 @@ impl FrameChecker {
             // a write happened although the line still fitted: allowed only as the exact-fill write AFTER buffering,
             // which would carry this line too - a write of the old pending alone is premature
             if wrote || failed.is_some() {
-                return Err(self.viol(
-                    "F4",
-                    "unneeded-flush",
-                    format!("buffered data was written although the next line ({} bytes incl. terminator) still fitted into the remaining {} bytes", req, self.cap - fill_before),
-                ));
+                self.f4("unneeded-flush", format!("buffered data was written although the next line ({} bytes incl. terminator) still fitted into the remaining {} bytes", req, self.cap - fill_before))?;
             }
         }
         if let Some(id) = failed {
@@ -528,7 +544,35 @@ impl FrameChecker {
             if let Some(b) = &at.bytes {
                 // is it a premature write of pending data including the new line (flush after every write)?
                 if self.match_buffer_write(b).is_some() {
-                    return Err(self.viol("F4", "unneeded-flush", format!("data was written although {} bytes of room remained", self.cap.saturating_sub(self.fill))));
+                    self.f4("unneeded-flush", format!("data was written although {} bytes of room remained", self.cap.saturating_sub(self.fill)))?;
+                    // tolerated: treat it as an (early) write of the pending data including this line
+                    let mut w3 = false;
+                    let f3 = self.consume_buffer_writes(a, &mut i, Some(m), &mut w3, &mut retried)?;
+                    if let Some(id) = f3 {
+                        return match &s.res {
+                            Res::Err(_) => {
+                                self.check_err_identity(&s.res, Some(id), "emit")?;
+                                let l = self.pending.pop_back().unwrap();
+                                self.fill -= l.bytes.len();
+                                Ok(Outcome::FailedDirect)
+                            }
+                            _ => {
+                                self.accepted += 1;
+                                Ok(Outcome::Other)
+                            }
+                        };
+                    }
+                    if i == a.len() {
+                        return match &s.res {
+                            Res::OkN(n) if *n == m.len() => {
+                                self.accepted += 1;
+                                Ok(Outcome::Other)
+                            }
+                            Res::OkN(n) => Err(self.viol("F2", "return-count", format!("emit returned Ok({}) for a metric of {} bytes", n, m.len()))),
+                            Res::Err(_) => Err(self.viol("F3", "spurious-error", "emit returned an error although no write attempt of this call failed".into())),
+                            r => Err(self.viol("F3", "bad-result", format!("unexpected result {:?} for emit", r))),
+                        };
+                    }
                 }
                 // undo the buffering for classification purposes
                 let (rule, class, detail) = self.classify_bad_write(b, Some(m));
